@@ -136,10 +136,70 @@ def gen_cases(tier, seed):
                 files.append({"frame": f, "compression": None, "rel": "f%02d.parquet" % j})
             cases.append({"id": "CT/%s/%s" % ("-".join(map(str, counts)), route), "frame": files[0]["frame"], "opts": {"has_nulls": True, "row_group_offsets": None},
                           "files": files, "layout": "flat", "route": route, "mismatch": None, "growing_vocabulary": True})
+    # --- multi-file (hive) datasets under one root, opened as one dataset by their directories, by handles, or merged from handles
+    for i in range(18 if tier == "quick" else 240):
+        cases.append({"id": "SD/%d/%d" % (seed, i), "sub_datasets": True, "route": ["dirs", "handles", "merge_handles"][i % 3], "nsub": 2 + (i // 3) % 2,
+                      "partitioned": bool((i // 6) % 2), "seed": 1470 + 17 * seed + i, "frame": {"cols": []}, "opts": {}, "files": [], "layout": "sub", "mismatch": None})
     return cases
 
 
+def run_sub_datasets(case):
+    """Several multi-file (hive) datasets under one root opened as one: by their directory paths, by handles, merged from handles.
+    The rows must be those of the sub-datasets, one after the other."""
+    import pandas as pd
+    import fastparquet
+    from fastparquet import writer as W
+    from vf.props import common as C
+    root = C.fresh_path("")
+    os.makedirs(root)
+    counters = {}
+    res = {"features": [], "nontrivial": False, "failures": [], "counters": counters}
+    rng = np.random.default_rng([case["seed"], 14])
+    try:
+        dirs, want = [], []
+        rid = 0
+        for j in range(case["nsub"]):
+            n = int(rng.integers(3, 14))
+            df = pd.DataFrame({"rid": np.arange(rid, rid + n, dtype="int64"), "v": rng.standard_normal(n), "k": np.array(["a", "b"], dtype=object)[np.arange(n) % 2]})
+            rid += n
+            d = os.path.join(root, "sub%d" % j)
+            kw = {"file_scheme": "hive", "row_group_offsets": int(rng.integers(2, 6))}
+            if case["partitioned"]:
+                kw["partition_on"] = ["k"]
+            fastparquet.write(d, df, **kw)
+            dirs.append(d)
+            # (a partitioned write stores the rows key by key within each chunk)
+            want += fastparquet.ParquetFile(d).to_pandas(columns=["rid"], index=False)["rid"].tolist()
+        ctx = {"route": case["route"], "n_sub_datasets": case["nsub"], "partitioned": case["partitioned"]}
+        try:
+            if case["route"] == "dirs":
+                pf = fastparquet.ParquetFile(dirs)
+            elif case["route"] == "handles":
+                pf = fastparquet.ParquetFile([fastparquet.ParquetFile(d) for d in dirs])
+            else:
+                pf = W.merge([fastparquet.ParquetFile(d) for d in dirs])
+                pf = fastparquet.ParquetFile(root)
+            got = pf.to_pandas(columns=["rid"], index=False)["rid"].tolist()
+            cnt = int(pf.count())
+        except Exception as e:
+            res["failures"].append({"kind": "open_or_read_raised", **ctx, **C.exc_shape(e)})
+        else:
+            if [int(x) for x in got] != [int(x) for x in want] or cnt != len(want):
+                res["failures"].append({"kind": "rows_differ_from_concatenation", "expected_n": len(want), "got_n": len(got), "count": cnt,
+                                        "first_diff": next((i for i, (a, b) in enumerate(zip(got, want)) if a != b), None), **ctx})
+            counters["sub_dataset_opens_compared"] = 1
+            counters["opens_compared"] = 1
+        res["outcome"] = "ok"
+        res["nontrivial"] = True
+        res["features"] = [str(("sub_datasets", case["route"], case["nsub"], case["partitioned"]))]
+        return res
+    finally:
+        C.cleanup(root)
+
+
 def run_case(case):
+    if case.get("sub_datasets"):
+        return run_sub_datasets(case)
     import pandas as pd
     import fastparquet
     from fastparquet import writer as W
@@ -409,4 +469,4 @@ def run_case(case):
 def required(tier):
     return {"opens_compared": 120, "route:list": 15, "route:dir": 15, "route:glob": 15, "route:merge": 15, "route:merge_pf": 15,
             "footer_path:new": 30, "footer_path:legacy": 30, "mismatch_rejected": 20, "partition_values_checked": 100, "footer_lattice_points": 30,
-            "growing_vocabulary_opens": 20, "merge_with_root": 10, "piece_handles_rechecked": 40, "second_opens_from_derived_handles": 10, "mismatch_rejected:tz": 3, "mismatch_rejected:width": 3, "files_of_another_writer_in_the_set": 10, "opens_over_directories_named_with_a_common_prefix": 10}
+            "growing_vocabulary_opens": 20, "merge_with_root": 10, "piece_handles_rechecked": 40, "second_opens_from_derived_handles": 10, "mismatch_rejected:tz": 3, "mismatch_rejected:width": 3, "files_of_another_writer_in_the_set": 10, "opens_over_directories_named_with_a_common_prefix": 10, "sub_dataset_opens_compared": 6}
